@@ -62,6 +62,31 @@ Theorem C16_wire_any : forall t miss, f_namelen t = len (f_name t) -> (length mi
 Proof. exact wire. Qed.
 Print Assumptions C16_wire_any.
 
+(* One frame carries at most 1023 body bytes.  The range computation and the 0x9212 body stay exact up to 255
+   ranges (C16_wire); what fails above 1023 bytes is the FRAME: Header.Encode writes the length unmasked, and the
+   decoder rejects the result.  Witness (known finding C16/socket/reply-over-1023; the harness plays 127..255-gap
+   sessions against the real server and hands every reply to the real decoder): 254-byte file, every odd byte
+   received, 127 one-byte gaps, 8-byte name -> 1028-byte body, undecodable frame.  With 126 gaps (1020 bytes) the
+   frame decodes and its body parses to exactly the 126 ranges.  For every body of at most 1023 bytes the frame
+   round trip is C01_roundtrip. *)
+Theorem C16_refuted_reply_over_1023 :
+  let g := miss_segments 254 127 (over_chunks 127) in
+  length g = 127%nat /\ length (reply1212 (over_file 254) g) = 1028%nat /\
+  parse9212 (reply1212 (over_file 254) g) =
+    Ok {| r_namelen := 8; r_name := f_name (over_file 254); r_type := 0; r_result := 1; r_count := 127; r_list := g |} /\
+  decode (encode over_hdr 0x9212 3 (reply1212 (over_file 254) g)) = Err E_BODY_LEN.
+Proof. exact reply_over_1023_refuted. Qed.
+Print Assumptions C16_refuted_reply_over_1023.
+
+Theorem C16_reply_126_gaps_carried :
+  let g := miss_segments 252 126 (over_chunks 126) in
+  length g = 126%nat /\ length (reply1212 (over_file 252) g) = 1020%nat /\
+  exists m, decode (encode over_hdr 0x9212 3 (reply1212 (over_file 252) g)) = Ok m /\ m_id m = 0x9212 /\
+    parse9212 (m_body m) =
+      Ok {| r_namelen := 8; r_name := f_name (over_file 252); r_type := 0; r_result := 1; r_count := 126; r_list := g |}.
+Proof. exact reply_126_gaps_carried. Qed.
+Print Assumptions C16_reply_126_gaps_carried.
+
 (* non-vacuity: the 5000-byte file with chunks 4000.., 0.., 2000.. received (out of order) *)
 Example C16_example :
   chunks_ok 5000 [(4000, 1000); (0, 1000); (2000, 1000)] /\
